@@ -106,6 +106,8 @@ def check(ctx):
     from .c06 import ilots_after_l        # 'ilots' is a documented export attribute: it must not raise
     ctx.attempt(ilots_after_l)
     ctx.attempt(forward.check_all, module_suffixes=('containers.containers', 'tractwriter.tractwriter', 'plssdesc.plssdesc'))
+    # one row per tract: the collectors behind the writers keep every element
+    ctx.attempt(common.no_dedup_on_insert, [f for f in ctx.repo.funcs.values() if f.module.name.endswith(('containers.containers', 'tractwriter.tractwriter'))])
 
 
 def _join_sites(fi):
